@@ -150,14 +150,41 @@ S5B(p, late) ==
                ELSE << <<"add", 1>>, <<"add", 2>>, <<"publish">>, <<"readn", late>>, <<"add", 3>>, <<"publish">>, <<"drain">> >>) ]
 
 -----------------------------------------------------------------------------
+(* S7: object sources (C20): every composition of the object length into read sizes *)
+RECURSIVE Chunks(_, _, _, _)
+\* cut[i] = TRUE: a read ends after byte i
+Chunks(cut, i, acc, L) == IF i > L THEN <<>>
+                          ELSE IF i = L \/ cut[i] THEN <<acc + 1>> \o Chunks(cut, i + 1, 0, L) ELSE Chunks(cut, i + 1, acc + 1, L)
+S7P == (1..8) \X {1, 2} \X {1, 2} \X {1, 2} \X { <<"none", 0>>, <<"delay", 100>> } \X {0, 5}
+S7K(p) == [1..(p[1] - 1) -> BOOLEAN]
+S7B(p, cut) ==
+  LET L == p[1] E == p[2] B == p[3] cnt == p[4] car == p[5] sc == p[6] IN
+    [ fam |-> "S7",
+      cfg |-> [scheme |-> 0, E |-> BigE, B |-> 8, interleave |-> 2, queues |-> << <<0, 1>> >>, sct |-> FALSE],
+      objs |-> << [clen |-> L, oti |-> Oti(sc, E, B, IF sc = 0 THEN 0 ELSE 1, TRUE), count |-> cnt, car |-> car, md5 |-> FALSE,
+                   chunks |-> Chunks(cut, 1, 0, L)] >>,
+      srcs |-> <<"buffer", "stream">>,
+      ops |-> << <<"add", 1>>, <<"publish">>, <<"drain">>, <<"adv", 1500>>, <<"drain">>, <<"adv", 1500>>, <<"drain">> >> ]
+\* larger objects through a file, a BufReader with a tiny buffer, fixed small chunks and one byte at a time
+S7bP == {100, 257, 1000} \X {7, 16} \X {3, 8} \X {0, 5, 6} \X {1, 2}
+S7bB(p, k) ==
+    [ fam |-> "S7b",
+      cfg |-> [scheme |-> 0, E |-> BigE, B |-> 8, interleave |-> 2, queues |-> << <<0, 1>> >>, sct |-> FALSE],
+      objs |-> << [clen |-> p[1], oti |-> Oti(p[4], p[2], p[3], IF p[4] = 0 THEN 0 ELSE 2, TRUE), count |-> p[5], md5 |-> FALSE,
+                   car |-> <<"delay", 100>>, chunks |-> <<k>>, bufcap |-> 5] >>,
+      srcs |-> <<"buffer", "stream", "file", "bufreader">>,
+      ops |-> << <<"add", 1>>, <<"publish">>, <<"drain">>, <<"adv", 1500>>, <<"drain">> >> ]
+
+-----------------------------------------------------------------------------
 (* The parameter spaces are cartesian products (enumerated lazily by TLC, no set of big records is   *)
 (* ever built); the dependent parameter k is a second variable.                                      *)
 Params == CASE Family = "S1" -> S1P [] Family = "S3" -> S3P [] Family = "S4" -> S4P [] Family = "S4x" -> S4xP
-            [] Family = "S5" -> S5P [] Family = "S2" -> S2Cfgs [] OTHER -> {}
+            [] Family = "S5" -> S5P [] Family = "S2" -> S2Cfgs [] Family = "S7" -> S7P [] Family = "S7b" -> S7bP [] OTHER -> {}
 KRange(p) == CASE Family = "S1" -> S1K(p) [] Family = "S3" -> S3K(p) [] Family = "S4" -> S4K(p)
-               [] Family = "S5" -> S5K(p) [] OTHER -> {0}
+               [] Family = "S5" -> S5K(p) [] Family = "S7" -> S7K(p) [] Family = "S7b" -> {1, 3, 1000} [] OTHER -> {0}
 Build(p, k) == CASE Family = "S1" -> S1B(p, k) [] Family = "S3" -> S3B(p, k) [] Family = "S4" -> S4B(p, k)
-                 [] Family = "S4x" -> S4xB(p, k) [] Family = "S5" -> S5B(p, k)
+                 [] Family = "S4x" -> S4xB(p, k) [] Family = "S5" -> S5B(p, k) [] Family = "S7" -> S7B(p, k)
+                 [] Family = "S7b" -> S7bB(p, k)
 
 VARIABLES b, k, h
 Init == b \in Params /\ k \in KRange(b) /\ h = <<>>
